@@ -348,7 +348,11 @@ func genTable(r *simrt.RNG, used map[string]bool, srs gpkgh.SRS, t tms20.TileMat
 	}
 	pk := gpkgh.Column{Name: ident(r, cused), Type: "INTEGER", PK: true, NotNull: r.Chance(0.5), AutoInc: r.Chance(0.4)}
 	var attrs []gpkgh.Column
-	for i, n := 0, r.Intn(5); i < n; i++ {
+	nattr := r.Intn(5)
+	if r.Chance(0.03) {
+		nattr = 30 + r.Intn(50) // a wide table
+	}
+	for i, n := 0, nattr; i < n; i++ {
 		typ := []string{"INTEGER", "REAL", "TEXT", "DOUBLE", "MEDIUMINT", "TEXT(20)", "Integer", "text", "Real", "DOUBLE PRECISION", "VARCHAR(10)", "BLOB", "BOOLEAN", "DATE", "DATETIME"}[r.Intn(15)]
 		col := gpkgh.Column{Name: ident(r, cused), Type: typ, NotNull: r.Chance(0.3)}
 		if r.Chance(0.12) {
